@@ -48,6 +48,12 @@ class P(Prop):
             for n in list(c.graph.nodes):
                 if c.type(n) == "buf" and c.is_output(n) and rng.random() < 0.4:
                     c.set_output(n, False)
+            if rng.random() < 0.3:
+                # a dead node that is NOT a pin but is named after an instance (`ff0.tap`): lint accepts it (its prefix
+                # names a recorded instance); sweeping it must not touch the instance's pins
+                inst = rng.choice(sorted(c.blackboxes))
+                src = rng.choice([x for x in sorted(c.graph.nodes) if c.type(x) not in ("bb_input", "bb_output")])
+                c.add(f"{inst}.{rng.choice(['tap', 'dbg', 'q_n'])}", rng.choice(["not", "buf"]), fanin=[src])
         # knock out outputs to create dead logic
         for o in list(c.outputs()):
             if rng.random() < 0.3:
